@@ -1277,3 +1277,91 @@ Proof.
   - destruct S; discriminate.
   - destruct S; discriminate.
 Qed.
+
+(* ---------- the with statement ---------- *)
+Lemma rds_tmps_bound : forall l s, rds s (map RTmp l) = RsUnbound -> False.
+Proof.
+  induction l as [|a l IH]; simpl; intros s H; [discriminate|].
+  destruct (get a (temps s)) as [o|]; [|discriminate].
+  destruct (Nat.eqb (bal (tr s) o) 0); [discriminate|].
+  destruct (rds s (map RTmp l)) eqn:E; try discriminate. eapply IH; eauto.
+Qed.
+
+(* a reference held by the emitted code itself (unmanaged temp) between its GOTREF and its DECREF *)
+Lemma transient_ok : forall s o s', Inv s -> temps s' = temps s -> locs s' = locs s -> res s' = res s ->
+  tr s' = Got o :: tr s ->
+  exists s5, give o s' = Some s5 /\ Inv s5 /\ temps s5 = temps s /\ res s5 = res s /\ flag s5 = flag s'.
+Proof.
+  intros s o s' [a b c d] Ht Hl Hr Htr.
+  assert (G : give o s' = Some (set_tr (Give o :: tr s') s')).
+  { unfold give. rewrite Htr. simpl. rewrite Nat.eqb_refl. reflexivity. }
+  eexists; split; [exact G|]. simpl. split; [|auto].
+  constructor; simpl; rewrite ?Ht, ?Hl, ?Hr; auto.
+  - intros o'. rewrite Htr. simpl. rewrite <- c. destruct (Nat.eqb o o'); lia.
+  - rewrite Htr. simpl. rewrite Nat.eqb_refl. simpl. auto.
+Qed.
+
+Lemma BT_temps : forall L s s', temps s' = temps s -> BT L s -> BT L s'.
+Proof. intros L s s' H HB u. unfold bound. rewrite H. apply HB. Qed.
+
+(* the __exit__ call as it is emitted: on every outcome (call fails / truth test fails / answers) exactly
+   exit_var and the args tuple have been released and nothing else is owned *)
+Lemma exit_call_ok : forall O test te args s L, Inv s -> BT L s -> NoDup (te :: args) ->
+  (forall t, In t (te :: args) -> L t) ->
+  match exit_call O false test te args s with
+  | Norm s' | Err s' => Inv s' /\ BT (fun u => L u /\ ~ In u (te :: args)) s' /\ res s' = res s
+  | _ => False
+  end.
+Proof.
+  intros O test te args s L I HB Hnd Hin. unfold exit_call.
+  destruct (rds_ok (map RTmp (te :: args)) s L I HB) as [[os E]|E].
+  { intros t Ht. apply in_map_iff in Ht. destruct Ht as (t' & [= ->] & Ht'). auto. }
+  2:{ exfalso. eapply rds_tmps_bound; eauto. }
+  rewrite E.
+  assert (It : Inv (tick s)) by (eapply Inv_same; eauto; apply same_tick).
+  assert (Bt : BT L (tick s)) by (eapply BT_same; eauto; apply same_tick).
+  destruct (decref_all_ok (te :: args) (tick s) L It Bt Hnd Hin) as (s2 & E2 & I2 & B2 & R2).
+  rewrite E2. cbn [bind]. simpl in R2. destruct (fail O (calls s)); [split; [auto|split; auto]|].
+  set (o := nxt s2). destruct test.
+  - destruct (transient_ok s2 o (tick (got o (fresh s2))) I2) as (s5 & E5 & I5 & T5 & R5 & F5); try reflexivity.
+    rewrite E5. destruct (fail O (calls (got o (fresh s2)))).
+    + split; [auto|]. split; [eapply BT_temps; eauto|congruence].
+    + split; [apply Inv_flag; auto|]. split; [apply BT_flag; eapply BT_temps; eauto|]. simpl. congruence.
+  - destruct (transient_ok s2 o (got o (fresh s2)) I2) as (s5 & E5 & I5 & T5 & R5 & F5); try reflexivity.
+    rewrite E5. split; [auto|]. split; [eapply BT_temps; eauto|congruence].
+Qed.
+
+(* the variant with the error test in front of the DECREF of result_var loses that reference when the truth
+   test fails: witness = exit_var in temp 0, args tuple in temp 1, the call succeeds, the truth test raises *)
+Definition wit_state : state :=
+  mk [(1, 11); (0, 10)] [] None [Got 11; Got 10] 12 0 0 false.
+Definition wit_orc : orc := orc_of (Some 1) [].
+Lemma wit_state_inv : Inv wit_state.
+Proof. constructor; simpl; auto. - repeat constructor; simpl; intuition discriminate. - constructor.
+  - intros o. destruct o as [|[|[|[|[|[|[|[|[|[|[|[|o]]]]]]]]]]]]; reflexivity. Qed.
+Lemma exit_call_late_leaks :
+  exists s', exit_call wit_orc true true 0 [1] wit_state = Err s' /\
+             temps s' = [] /\ locs s' = [] /\ res s' = None /\ bal (tr s') 12 = 1.
+Proof. eexists. split; [vm_compute; reflexivity|]. vm_compute. auto. Qed.
+Lemma exit_call_asis_same_input :
+  exists s', exit_call wit_orc false true 0 [1] wit_state = Err s' /\
+             temps s' = [] /\ (forall o, bal (tr s') o = 0).
+Proof.
+  pose proof (exit_call_ok wit_orc true 0 [1] wit_state (fun u => u = 0 \/ u = 1) wit_state_inv) as H.
+  eexists. split; [vm_compute; reflexivity|]. split; [reflexivity|].
+  intros o. destruct o as [|[|[|[|[|[|[|[|[|[|[|[|[|o]]]]]]]]]]]]]; reflexivity.
+Qed.
+
+(* the same at statement level: "with a: <body that raises>" where __exit__ returns an object whose truth test
+   raises (calls: 0 = __enter__, 1 = __exit__, 2 = the truth test) *)
+Definition wit_with (late : bool) : result :=
+  with_stat (orc_of (Some 2) []) late (RArg 0) 0 1 2 3 4 5 None [] (fun s => Err s) (init 5).
+Lemma with_late_leaks :
+  exists s', (wit_with true = Err s') /\ (bal (tr s') 11 = 1) /\ (cnt 11 (temps s') = 0) /\
+             (cnt 11 (locs s') = 0) /\ (res s' = None).
+Proof. eexists. split; [vm_compute; reflexivity|]. vm_compute. auto. Qed.
+Lemma with_asis_same_input :
+  exists s', (wit_with false = Err s') /\
+             (forallb (fun o => Nat.eqb (bal (tr s') o) (cnt o (temps s'))) (seq 0 20) = true) /\
+             (length (tr s') = 11).
+Proof. eexists. split; [vm_compute; reflexivity|]. vm_compute. auto. Qed.
